@@ -38,8 +38,10 @@ fn f64_pool(rng: &mut Rng, tier: Tier) -> Vec<f64> {
 
 fn roundtrip<T: ToPlain + FromPlain + PartialEq + std::fmt::Debug + Clone + std::panic::UnwindSafe + 'static>(cs: &mut Cases, key: &str, x: &T, eq: impl Fn(&T, &T) -> bool)
 where
-    <T as FromPlain>::Err: std::fmt::Debug,
+    <T as FromPlain>::Err: std::fmt::Debug + Into<Box<dyn std::error::Error + Sync + Send>>,
 {
+    use conjure_http::server::conjure::{FromPlainDecoder, FromPlainOptionDecoder, FromPlainSeqDecoder};
+    use conjure_http::server::{ConjureRuntime, DecodeHeader, DecodeParam};
     let y = x.clone();
     let r = guarded(move || {
         let t = y.to_plain();
@@ -51,6 +53,43 @@ where
         Ok((t, Ok(z))) => {
             if !eq(&z, x) {
                 cs.fail_last(&format!("{}:roundtrip", key), format!("from_plain(to_plain({:?}) = {:?}) = {:?}", x, t, z));
+                return;
+            }
+            // the same text through the server's parameter and header decoders (what generated endpoints use): the
+            // value, `Some(value)`, and a two-element list of it — never an altered, absent or shortened result
+            let t2 = t.clone();
+            let via = guarded(move || {
+                let rt = ConjureRuntime::new();
+                let one: Result<T, String> = <FromPlainDecoder as DecodeParam<T>>::decode(&rt, [t2.as_str()]).map_err(|e| e.cause().to_string());
+                let opt: Result<Option<T>, String> = <FromPlainOptionDecoder as DecodeParam<Option<T>>>::decode(&rt, [t2.as_str()]).map_err(|e| e.cause().to_string());
+                let seq: Result<Vec<T>, String> = <FromPlainSeqDecoder<T> as DecodeParam<Vec<T>>>::decode(&rt, [t2.as_str(), t2.as_str()]).map_err(|e| e.cause().to_string());
+                let hv = http::HeaderValue::from_str(&t2).ok();
+                let hone: Option<Result<T, String>> = hv.as_ref().map(|h| <FromPlainDecoder as DecodeHeader<T>>::decode(&rt, [h]).map_err(|e| e.cause().to_string()));
+                let hopt: Option<Result<Option<T>, String>> = hv.as_ref().map(|h| <FromPlainOptionDecoder as DecodeHeader<Option<T>>>::decode(&rt, [h]).map_err(|e| e.cause().to_string()));
+                (one, opt, seq, hone, hopt)
+            });
+            match via {
+                Err(p) => cs.fail_last(&format!("{}:decoder-panic", key), p),
+                Ok((one, opt, seq, hone, hopt)) => {
+                    let text_header = t.bytes().all(|b| (0x20..0x7f).contains(&b) || b == b'\t');
+                    let bad = if !matches!(&one, Ok(v) if eq(v, x)) {
+                        Some(format!("FromPlainDecoder (parameter) gives {:?}", one))
+                    } else if !matches!(&opt, Ok(Some(v)) if eq(v, x)) {
+                        Some(format!("FromPlainOptionDecoder (parameter) gives {:?}", opt))
+                    } else if !matches!(&seq, Ok(v) if v.len() == 2 && eq(&v[0], x) && eq(&v[1], x)) {
+                        Some(format!("FromPlainSeqDecoder gives {:?}", seq))
+                    } else if (text_header && !matches!(&hone, None | Some(Ok(_)))) || matches!(&hone, Some(Ok(v)) if !eq(v, x)) {
+                        // (a header value that is not visible ASCII may be refused, never delivered altered)
+                        Some(format!("FromPlainDecoder (header) gives {:?}", hone))
+                    } else if (text_header && !matches!(&hopt, None | Some(Ok(Some(_))))) || matches!(&hopt, Some(Ok(Some(v))) if !eq(v, x)) || matches!(&hopt, Some(Ok(None))) {
+                        Some(format!("FromPlainOptionDecoder (header) gives {:?}", hopt))
+                    } else {
+                        None
+                    };
+                    if let Some(b) = bad {
+                        cs.fail_last(&format!("{}:decoder", key), format!("the PLAIN text {:?} of {:?}: {}", t, x, b));
+                    }
+                }
             }
         }
     }
@@ -297,6 +336,22 @@ pub fn cases(seed: u64, tier: Tier) -> Cases {
         cs.push("dtparse", format!("dtparse {}", hex(s.as_bytes())), real, true, format!("DateTime::<Utc>::from_plain({:?})", s));
     }
 
+    // ---- strings: the PLAIN text is the string itself, blanks and all
+    {
+        let fixed = ["", " ", "a", " lead", "trail ", "\ttab\t", "  two  ", "a b", "é", "漢字", "x\u{a0}", "\u{2003}em", "line\nbreak", "%20", "+", "a=b&c", "\"q\"", "\u{feff}bom"];
+        let pool: Vec<char> = " \tab\u{a0}xyz09-_.~%+é漢".chars().collect();
+        let n = if tier == Tier::Quick { 200 } else { 5000 };
+        let seeded: Vec<String> = (0..n).map(|_| (0..rng.below(8)).map(|_| *rng.pick(&pool)).collect()).collect();
+        for st in fixed.iter().map(|s| s.to_string()).chain(seeded) {
+            cs.push("string", "noop".into(), "noop".into(), st.trim() != st || st.is_empty(), format!("the string {:?} printed, parsed back and through the server's decoders", st));
+            if st.to_plain() != st {
+                cs.fail_last("string:text-differs", format!("{:?}.to_plain() = {:?}", st, st.to_plain()));
+            } else {
+                roundtrip(&mut cs, "string", &st, |a, b| a == b);
+            }
+        }
+    }
+
     // ---- bearer tokens and resource identifiers: the PLAIN text is the string itself, whichever way the value was made
     {
         let n = if tier == Tier::Quick { 80 } else { 2000 };
@@ -320,6 +375,8 @@ pub fn cases(seed: u64, tier: Tier) -> Cases {
                             cs.fail_last("token:text-differs", format!("token {:?} made by {} prints {:?} (as_str {:?})", s, how, text, t.as_str()));
                         } else if back.as_ref().ok() != Some(&t) || back.as_ref().map(|b| b.to_plain()).ok() != Some(s.clone()) {
                             cs.fail_last("token:roundtrip", format!("from_plain(to_plain(token {:?} made by {})) = {:?}", s, how, back.map(|b| b.to_plain())));
+                        } else {
+                            roundtrip(&mut cs, "token", &t, |a, b| a == b && a.as_str() == b.as_str());
                         }
                     }
                 }
@@ -341,6 +398,8 @@ pub fn cases(seed: u64, tier: Tier) -> Cases {
                             cs.fail_last("rid:text-differs", format!("rid {:?} made by {} prints {:?}", r, how, text));
                         } else if back.as_ref().ok() != Some(&t) {
                             cs.fail_last("rid:roundtrip", format!("from_plain(to_plain(rid {:?} made by {})) = {:?}", r, how, back.map(|b| b.to_plain())));
+                        } else {
+                            roundtrip(&mut cs, "rid", &t, |a, b| a == b);
                         }
                     }
                 }
@@ -368,6 +427,7 @@ pub fn cases(seed: u64, tier: Tier) -> Cases {
                     if parsed != sl || sl.to_plain() != slv.to_string() || *sl != slv {
                         cs.fail_last("safelong:roundtrip", format!("SafeLong::new({}) prints {:?}; from_plain of the decimal text gives {:?}", slv, sl.to_plain(), parsed));
                     }
+                    roundtrip(&mut cs, "safelong", &sl, |a, b| a == b);
                     alias_rt(&mut cs, "SafeAlias", &sl, g::SafeAlias, None);
                 }
                 Ok((a, b)) => cs.fail_last("safelong:valid-rejected", format!("{} lies within ±(2^53 - 1) but SafeLong::new gives {:?} and from_plain gives {:?}", slv, a.map(|x| *x), b.map(|x| *x))),
@@ -379,6 +439,11 @@ pub fn cases(seed: u64, tier: Tier) -> Cases {
             alias_rt(&mut cs, "UuidAlias", &Uuid::from_bytes(ub), g::UuidAlias, Some(format!("uuid {}", hex(&ub))));
             let bytes: Vec<u8> = (0..rng.below(9)).map(|_| rng.next() as u8).collect();
             alias_rt(&mut cs, "BinAlias", &Bytes::from(bytes.clone()), g::BinAlias, Some(format!("bin {}", hex(&bytes))));
+            // aliases of the two types whose `Display` is not their PLAIN text
+            let dv = [0.5, f64::INFINITY, f64::NEG_INFINITY, f64::NAN, -0.0, 1e300, 5e-324, rng.range(-1000, 1000) as f64 / 8.0][i % 8];
+            alias_rt(&mut cs, "DblAlias", &dv, g::DblAlias, None);
+            let dt = Utc.with_ymd_and_hms(1970 + (i as i32 * 7) % 200, 1 + (i as u32 % 12), 1 + (i as u32 % 28), i as u32 % 24, (i as u32 * 7) % 60, (i as u32 * 13) % 60).unwrap() + chrono::Duration::nanoseconds([0, 1, 1000, 123_456_789, 999_999_999, 500_000_000][i % 6]);
+            alias_rt(&mut cs, "DateTimeAlias", &dt, g::DateTimeAlias, None);
             let rid: conjure_object::ResourceIdentifier = format!("ri.s{}.i-{}.t.L_{}.x", i % 7, i % 3, rng.below(100)).parse().unwrap();
             alias_rt(&mut cs, "RidAlias", &rid, g::RidAlias, None);
             let tok: conjure_object::BearerToken = format!("tok-{}+/~._=", rng.below(100000)).parse().unwrap();
